@@ -24,29 +24,29 @@ type finding struct {
 }
 
 type funcReport struct {
-	fn        *vm.BytecodeFunction
-	name      string
-	instrs    []*instr
-	at        map[int]*instr // by offset
-	findings  []finding
-	decodeOK  bool
-	analysed  bool     // the abstract exploration ran to completion
-	notAn     []string // opcodes without a stack effect entry (function not depth-analysed)
-	states    int
-	trans     int
-	depths    map[int][]int // pc -> sorted set of abstract depths
-	nlocals   int           // self + parameters + PREP_LOCALS
-	entry     int
-	poly      [][2]int // [H, END) regions in which several depths per pc are expected (do ... finally)
-	handlers  map[int]bool // JumpAddress of non-finally catch entries
-	opsSeen   map[string]int
-	capped    bool
+	fn         *vm.BytecodeFunction
+	name       string
+	instrs     []*instr
+	at         map[int]*instr // by offset
+	findings   []finding
+	decodeOK   bool
+	analysed   bool     // the abstract exploration ran to completion
+	notAn      []string // opcodes without a stack effect entry (function not depth-analysed)
+	states     int
+	trans      int
+	depths     map[int][]int // pc -> sorted set of abstract depths
+	nlocals    int           // self + parameters + PREP_LOCALS
+	entry      int
+	poly       [][2]int     // [H, END) regions in which several depths per pc are expected (do ... finally)
+	handlers   map[int]bool // JumpAddress of non-finally catch entries
+	opsSeen    map[string]int
+	capped     bool
 	emptyCatch int
-	broken    bool   // an operand stack underflow was found: the depths after it mean nothing
-	unbounded bool   // the depth at some pc keeps growing (a cycle with a positive net effect)
-	genEnd    int    // generator functions: offset of the final STOP_ITERATION (len-4), else -1
-	kind      string // plain | generator | async
-	joinPC    int
+	broken     bool   // an operand stack underflow was found: the depths after it mean nothing
+	unbounded  bool   // the depth at some pc keeps growing (a cycle with a positive net effect)
+	genEnd     int    // generator functions: offset of the final STOP_ITERATION (len-4), else -1
+	kind       string // plain | generator | async
+	joinPC     int
 }
 
 func (fr *funcReport) add(sig, detail string) {
